@@ -262,6 +262,8 @@ def supervise(pid, tier, seed):
     if zero and shards:
         inconclusive.append("anchored functions never entered: " + ", ".join(zero))
     distinct = {k: len(v) for k, v in sets.items()}
+    if shards and hasattr(prop, "post_check"):
+        inconclusive.extend(prop.post_check(counters, distinct))
     nontrivial = distinct.get("nontrivial", 0)
     if shards and nontrivial < consts.get("MIN_NONTRIVIAL", 2):
         inconclusive.append("only %d distinct non-trivial cases" % nontrivial)
